@@ -161,7 +161,7 @@ var structGens = []structGen{
 			case 1:
 				ctor.L[2] = TNu(ctor.L[2].U() + 1)
 			case 2:
-				ctor.L[3] = TNu(ctor.L[3].U()/2 + 1)
+				ctor.L[3] = TNu(ctor.L[3].U()/2 + 500000)
 			case 3:
 				ctor.L[4] = TNu(ctor.L[4].U()/3 + 1)
 			}
@@ -192,6 +192,7 @@ var structGensRedis = []structGen{
 	redisVariant(structGens[0], "cms-redis", func() Machine { return &cmsRedis{} }),
 	redisVariant(structGens[2], "hll-redis", func() Machine { return &hllRedis{} }),
 	redisVariant(structGens[1], "bloom-redis", func() Machine { return &bloomRedis{} }),
+	redisVariant(structGens[4], "topk-redis", func() Machine { return &topkRedis{} }),
 }
 
 // pairedQueries interleaves the same queries on instances a and b (a first).
